@@ -43,7 +43,8 @@ def generate(ctx):
             d["transforms"] = rng.random() < 0.4
             d["in_transforms"] = rng.random() < 0.4
             d["prefire_neurons"] = rng.random() < 0.5          # build the layer around neuron groups that just spiked
-            d["partial_clear_at"] = rng.choice([None, 2, 3, 4])  # clear(submodules=False) in the middle of the run
+            d["partial_clear_at"] = rng.choice([None, 2, 3, 4])  # clear(submodules=False) / clear(clear_feedback=False) mid-run
+            d["partial_clear_kind"] = rng.choice(["layer_only", "components_only"])
         yield d
 
 
@@ -174,7 +175,7 @@ def _step_layer(desc, layer, x):
         kw = {"neuron_kwargs": {"n0": dict(_NKW)}} if nkw else {}
         r = layer(x, capture_intermediate=cap, **kw)
         return (r[0], r[1]) if cap else (r, None)
-    kw = {"feedback_neuron_kwargs": dict(_NKW)} if nkw else {}
+    kw = {"feedback_neuron_kwargs": dict(_NKW), "feedfwd_neuron_kwargs": dict(_NKW)} if nkw else {}
     r = layer(*x, capture_intermediate=cap, **kw)
     if cap:
         inter = r[1]
@@ -220,7 +221,7 @@ class _Hand:
             drive = cff * 2.0 + cfb * 0.5
         else:
             drive = cff + cfb
-        sff = ffn(drive)
+        sff = ffn(drive, **(_NKW if d.get("nkw") else {}))
         clat = p.conns["lateral"](~sff if d.get("in_transforms") else sff)
         sfb = fbn(clat * 2.0 if d["transforms"] else clat, **(_NKW if d.get("nkw") else {}))
         self.fb_spikes = sfb
@@ -283,9 +284,15 @@ def run_case(ctx, desc):
         ctx.count("wiring_steps_checked")
         try:
             if kind == "recurrent" and desc.get("partial_clear_at") == t:
-                # layer-level clear only: the stored feedback spikes are forgotten, the components keep their state
-                layer.clear(submodules=False)
-                hand.fb_spikes = None
+                if desc.get("partial_clear_kind") == "components_only":
+                    # the components return to rest, the stored feedback spikes are kept
+                    layer.clear(clear_feedback=False)
+                    for m in list(pH.conns.values()) + list(pH.neurons.values()):
+                        m.clear()
+                else:
+                    # layer-level clear only: the stored feedback spikes are forgotten, the components keep their state
+                    layer.clear(submodules=False)
+                    hand.fb_spikes = None
                 ctx.count("partial_clears")
             outs, inter = _step_layer(desc, layer, x)
         except Exception as e:  # noqa: BLE001
